@@ -116,6 +116,10 @@ MUT["C17"] = [
 ]
 
 MUT["C01"] = [
+    dict(id="c01-orig-ub-plausible", what="plausible upper bound recorded as the hard bound the clamp uses", path=P_VT, functions=[VT + ".__init__"],
+         old="        self.orig_ub = ub.copy()", new="        self.orig_ub = pub.copy()", expect="original_hard_bounds_recorded"),
+    dict(id="c01-orig-lb-swapped", what="upper bound recorded as the lower hard bound", path=P_VT, functions=[VT + ".__init__"],
+         old="        self.orig_lb = lb.copy()", new="        self.orig_lb = ub.copy()", expect="VariableTransformer.__init__"),
     dict(id="c01-inv-no-upper", what="inverse transform clamps only from below", path=P_VT, functions=[VT + ".inverse_transf"],
          old="        x = np.minimum(\n            np.maximum(x, self.orig_lb), self.orig_ub\n        )", new="        x = np.maximum(x, self.orig_lb)", expect="clamped"),
     dict(id="c01-fwd-wrong-bound", what="forward transform clamps against the original bounds", path=P_VT, functions=[VT + ".__call__"],
@@ -486,7 +490,7 @@ PROPS = {
     "C01": dict(
         level="proof",
         native=[panel('C01', 6, 36)], replay=replay('C01'),
-        functions=[VT + ".inverse_transf", VT + ".__call__", FL + ".__call__", CC, B + ".optimize"],
+        functions=[VT + ".__init__", VT + ".inverse_transf", VT + ".__call__", FL + ".__call__", CC, B + ".optimize"],
         scans=[scan_c01],
         mutants=MUT["C01"],
         explanation="Clamp postconditions of both transform directions for every finite input; the single target call site receives inverse_transf(x)[0] (in the hard box for every x); "
@@ -530,9 +534,10 @@ PROPS = {
     ),
     "C11": dict(
         level="proof",
+        quick_timeout_ms=40000,  # the two division-monotonicity statement contracts need 20-25 s of nominal budget: keep them away from the limit
         native=[dict(name="transform-sampling", script="transform_sampling.py", args_quick=["--points", 2000], args_thorough=["--points", 200000], timeout=2400)],
         replay=dict(script="transform_sampling.py", args=["--points", 20000], timeout=1200),
-        functions=[VT + ".__create_hypercube_trans__", VT + ".__call__", VT + ".inverse_transf"],
+        functions=[VT + ".__init__", VT + ".__create_hypercube_trans__", VT + ".__call__", VT + ".inverse_transf"],
         mutants=MUT["C11"],
         explanation="The real closures z, zlog, g, ginv created inside __create_hypercube_trans__ are called symbolically in the postconditions (arbitrary points ghost.x1, ghost.x2, all D): "
                     "plausible bounds map to -1/+1, g increasing (affine and log coordinates), ginv increasing (non-decreasing at the float cap), ginv(g(x)) == x for affine coordinates, "
